@@ -107,7 +107,7 @@ class ProcessWorker(Worker):
                 # the child's control thread might be unable to run (e.g. the child is stuck in C code), do not wait for it forever
                 if self._ctrl_comms.parent_end.poll(timeout):
                     self._ctrl_comms.parent_end.get()
-            except (BrokenPipeError, queue.Empty):
+            except (OSError, queue.Empty): # the child might be exiting right now: broken pipe, connection reset...
                 pass
 
             self._release_child()
